@@ -294,18 +294,25 @@ decreasing_by
     exact Nat.lt_succ_of_le (sumAbsorbDiags_length S _ _ _ _)
   · simp
 
+/-- one entry of `_combine_chain` (repaired): None ∘ v = v, v ∘ None = v, else v1(v2) (identity scalings dropped) -/
+def combineChainEntry (mk : List (Op K D) → Op K D) (v1 v2 : Op K D) : Op K D :=
+  match v1, v2 with
+  | .idEntry _, v2 => v2
+  | v1, .idEntry _ => v1
+  | v1, v2 => if isIdentity S v1 then v2 else if isIdentity S v2 then v1 else mk [v1, v2]
+
+/-- `BlockDiagonalOperator._combine_chain` -/
+def combineChain (mk : List (Op K D) → Op K D) (dm : Nat) (e1 e2 : List (Op K D)) : Op K D :=
+  Op.blockdiag dm ((e1.zip e2).map fun p => combineChainEntry S mk p.1 p.2)
+
 /-- merge adjacent block-diagonal operators (`opsnew[-1]._combine_chain(op)`); `mk` is ChainOperator.make for the entries -/
+def chainMergeBlockStep (mk : List (Op K D) → Op K D) (acc : List (Op K D)) (op : Op K D) : List (Op K D) :=
+  match acc, op with
+  | .blockdiag dm e1 :: accs, .blockdiag _ e2 => combineChain S mk dm e1 e2 :: accs
+  | acc, op => op :: acc
+
 def chainMergeBlock (mk : List (Op K D) → Op K D) (l : List (Op K D)) : List (Op K D) :=
-  (l.foldl (fun (acc : List (Op K D)) op =>
-    match acc, op with
-    | .blockdiag dm e1 :: accs, .blockdiag _ e2 =>
-        -- _combine_chain (repaired): None ∘ v = v, v ∘ None = v, else v1(v2)
-        Op.blockdiag dm ((e1.zip e2).map fun (v1, v2) =>
-          match v1, v2 with
-          | .idEntry _, v2 => v2
-          | v1, .idEntry _ => v1
-          | v1, v2 => if isIdentity S v1 then v2 else if isIdentity S v2 then v1 else mk [v1, v2]) :: accs
-    | acc, op => op :: acc) []).reverse
+  (l.foldl (chainMergeBlockStep S mk) []).reverse
 
 /-- nested chains unpacked (`opsnew += op._ops if isinstance(op, ChainOperator) else [op]`) -/
 def chainFlatten (ops : List (Op K D)) : List (Op K D) :=
@@ -381,16 +388,21 @@ def scale (o : Op K D) (f : K) : Except String (Op K D) :=
 def negU (fuel : Nat) (o : Op K D) : Op K D :=
   mkChainU S fuel [Op.scaling (tgt o) (S.kneg S.kone) 0, o]
 
+/-- `_combine_sum` (repaired): a missing entry is the identity `ScalingOperator(domain[key], 1.)` — in particular a key missing
+    in BOTH operands becomes `1 ± 1` (twice the identity, or zero), never "still missing" -/
+def unitEntry (v : Op K D) : Op K D := match v with | .idEntry d => Op.scaling d S.kone 0 | v => v
+
+/-- `BlockDiagonalOperator._combine_sum`: entry-wise `SumOperator.make([v1, v2], [selfneg, opneg])` -/
+def combineSum (mk : List (Op K D) → List Bool → Op K D) (dm : Nat) (e1 e2 : List (Op K D)) (n1 n2 : Bool) : Op K D :=
+  Op.blockdiag dm ((e1.zip e2).map fun p => mk [unitEntry S p.1, unitEntry S p.2] [n1, n2])
+
 def sumMergeBlocksInner (fuel : Nat) (mk : List (Op K D) → List Bool → Op K D) (acc : Op K D) (accneg : Bool) :
     List (Op K D × Bool) → Op K D × Bool × List (Op K D × Bool)
   | [] => (acc, accneg, [])
   | (p, pn) :: r =>
       match acc, p with
       | .blockdiag dm e1, .blockdiag _ e2 =>
-          -- _combine_sum (repaired): a missing entry is the identity ScalingOperator(domain[key], 1.)
-          let unit := fun (v : Op K D) => match v with | .idEntry d => Op.scaling d S.kone 0 | v => v
-          let merged := Op.blockdiag dm ((e1.zip e2).map fun (v1, v2) => mk [unit v1, unit v2] [accneg, pn])
-          sumMergeBlocksInner fuel mk merged false r
+          sumMergeBlocksInner fuel mk (combineSum S mk dm e1 e2 accneg pn) false r
       | _, _ =>
         let (a, an, r') := sumMergeBlocksInner fuel mk acc accneg r
         (a, an, (p, pn) :: r')
